@@ -506,7 +506,8 @@ def get_unconnected_connectors(graph: nx.MultiDiGraph, start_nodes: Set[DSGNode]
         else:
             conn_deg = get_out_degree(graph, base_conn_node, edge_type=EdgeType.CONNECTS) \
                 if is_out_conn else get_in_degree(graph, base_conn_node, edge_type=EdgeType.CONNECTS)
-            if not base_conn_node.is_valid(conn_deg):
+            if not base_conn_node.is_valid(conn_deg) and \
+                    not has_conditional_existence(graph, start_nodes, base_conn_node):
                 unconnected_connectors.append(connector_node)
                 if stop_at_one:
                     return unconnected_connectors
